@@ -57,8 +57,14 @@ logging.indent = None if args.no_indent else 2
 try:
     with open(args.configuration_file, 'r') as file:
         conf_dict = yaml.load(file, yaml.Loader)
-except (FileNotFoundError, yaml.YAMLError) as ex:
+except FileNotFoundError as ex:
     logging.error('Error in configuration file {}:\n{}'.format(args.configuration_file, str(ex)))
+    sys.exit(1)
+except yaml.YAMLError as ex:
+    # the text of a YAML error quotes the offending part of the file, which may be a secret: say only where it is
+    mark = getattr(ex, 'problem_mark', None)
+    where = ' at line {}, column {}'.format(mark.line + 1, mark.column + 1) if mark is not None else ''
+    logging.error('Error in configuration file {}: not valid YAML{}'.format(args.configuration_file, where))
     sys.exit(1)
 
 try:
